@@ -120,7 +120,7 @@ def work(chunk, points=None, tier='quick', quick_slice=0):
             # non-trivial: the estimate (not the floor) is what has to cover the error scale
             nontriv = F * unit < abs(t['exact']) / 2
             acc.case(case, nontrivial=nontriv, cell=cell,
-                     outcome=(method, n, err <= bound, round(math.log10(min(max(e, 1e-300) / max(unit, 1e-300), 1e300)))))
+                     outcome=(method, n, err <= bound, round(math.log10(max(min(max(e, 1e-300) / max(unit, 1e-300), 1e300), 1e-300)))))
             if math.isfinite(err) and e > 0:
                 acc.maxi('worst_excess_over_estimate/%s/%d' % (method, n), max(err - F * unit, 0.0) / e)
             if not (err <= bound):
